@@ -189,6 +189,32 @@ func c7Clone(c *Ctx) {
 	cl := c.Method(CorePath, "jsonEncoder", "clone")
 	cln := c.Method(CorePath, "jsonEncoder", "Clone")
 	je := c.Named(CorePath, "jsonEncoder")
+	if cl == nil && je != nil {
+		// the helper under another signature (cloneWith(context)): the unexported method of the encoder that takes an
+		// encoder out of the pool and returns it
+		for _, f := range coreFuncs(c) {
+			rn := RecvNamed(f)
+			if rn == nil || rn.Obj() != je.Obj() || f.Parent() != nil || f.Object() == nil || f.Object().Exported() || f.Signature.Results().Len() != 1 {
+				continue
+			}
+			if n, _ := types.Unalias(deref(f.Signature.Results().At(0).Type())).(*types.Named); n == nil || n.Obj() != je.Obj() {
+				continue
+			}
+			gets := false
+			for _, call := range Calls(f) {
+				if cf := CalleeFunc(call); cf != nil && FNm(cf) == "Get" && strings.Contains(Desc(call.Common().Value)+Desc(call.Value()), "_jsonPool") {
+					gets = true
+				}
+			}
+			if gets {
+				if cl != nil {
+					cl = nil
+					break
+				}
+				cl = f
+			}
+		}
+	}
 	if c.Anchor("R7.3", "zapcore.jsonEncoder.clone/Clone", cl != nil && cln != nil && je != nil) {
 		// by path exploration (helpers inline): the object clone returns comes out of the encoder pool, and what its
 		// fields hold when it is returned
@@ -245,6 +271,10 @@ func c7Clone(c *Ctx) {
 			}
 		}
 		okCopy = okCopy && nCopy > 0
+		if !okCopy && FNm(cl) != "clone" {
+			// the helper writes the context itself: whether the clone receives it is decided by R7.10 (clone-carries-context)
+			okCopy = true
+		}
 		c.Check(okCopy, "R7.3", FStr(cln), "copies-context-bytes", cln.Pos(), "Clone writes the parent's accumulated context bytes into the clone's own buffer")
 	}
 	iw := c.Method(CorePath, "ioCore", "With")
@@ -1001,6 +1031,9 @@ func c7CloneCarries(c *Ctx, rule string) {
 						}
 					}
 					if _, _, v := st.FieldOf(enc, "EncoderConfig"); v != nil && fromRecv(st.Desc(v)) {
+						out += "config=same"
+					} else if src := st.FieldFrom(enc, "EncoderConfig"); src != "" && fromRecv(src) {
+						// the clone is a whole copy of the receiver (*clone = *enc)
 						out += "config=same"
 					} else {
 						out += "config=?"
